@@ -122,7 +122,8 @@ def tag_value(rng, ty):
     if ty == "A":
         return rng.choice(list("PSI!~a0:"))
     if ty == "Z":
-        return rng.choice(["", "foo", "foo_bar baz", "a:b", "x#y.z-w", "*", "/path/to", "with space", "=ACG*at", "12=", "q:Z:r"])
+        return rng.choice(["", "foo", "foo_bar baz", "a:b", "x#y.z-w", "*", "/path/to", "with space", "=ACG*at", "12=", "q:Z:r",
+                           "cov=100%", "%d/%s", "100%% sure", "{0}", "\\t"])
     if ty == "H":
         return rng.choice(["", "1AE301", "FF"])
     if ty == "B":
